@@ -287,7 +287,40 @@ pub fn run_scenario_family(sc: &Scenario, panic_at: u32, family: u8) -> RunOut {
                                 held_by_caller.push(x);
                             }
                         }
-                        drop(it);
+                        // the ways of skipping ahead: the skipped elements' destructors run inside the iterator
+                        match (sc.a >> 4) % 5 {
+                            1 => {
+                                if let Some(x) = it.nth(1 + (sc.b % 3) as usize) {
+                                    let _u = ledger::enter_user();
+                                    held_by_caller.push(x);
+                                }
+                                drop(it);
+                            }
+                            2 => {
+                                let mut sk = it.skip(1 + (sc.b % 3) as usize);
+                                if let Some(x) = sk.next() {
+                                    let _u = ledger::enter_user();
+                                    held_by_caller.push(x);
+                                }
+                                drop(sk);
+                            }
+                            3 => {
+                                let mut sb = it.step_by(2 + (sc.b % 2) as usize);
+                                for _ in 0..2 {
+                                    if let Some(x) = sb.next() {
+                                        let _u = ledger::enter_user();
+                                        held_by_caller.push(x);
+                                    }
+                                }
+                                drop(sb);
+                            }
+                            4 => {
+                                let n = it.by_ref().count();
+                                let _ = n;
+                                drop(it);
+                            }
+                            _ => drop(it),
+                        }
                     }
                     15 => {
                         let len = v.len();
